@@ -1643,6 +1643,61 @@ theorem mpw_walk (G : ι → ι → ℝ) (hG : ∀ x y, 0 ≤ G x y) (d : ℕ) (
 
 end mpw
 
+-- ===== SEVENTH BATCH: shortest walks split into a shortest prefix and a suffix; closed node sets contain everything reachable =====
+-- (`lemma_walks` split clause with the suffix conjunct, `lemma_reach_closed`)
+
+section bfs
+variable {ι : Type} [Fintype ι] [DecidableEq ι]
+
+/-- `lemma_walks` split (SMT Skolem function `splitz`), with the suffix: `k >= 1 ∧ sdist(G,x,y) > k →
+  z != x ∧ walk(G,x,z,k) ∧ sdist(G,x,z) == k ∧ walk(G,z,y,sdist(G,x,y) - k)`: the node at position `k` of a shortest walk splits it
+into a shortest prefix of `k` connections and a suffix of the remaining connections (strengthens `sdist_split`) -/
+theorem sdist_split_suffix (G : ι → ι → ℝ) (x y : ι) (k : ℕ) (hk : 1 ≤ k) (h : k < sdist G x y) :
+    ∃ z, z ≠ x ∧ walk G x z k ∧ sdist G x z = k ∧ walk G z y (sdist G x y - k) := by
+  have hd : 1 ≤ sdist G x y := by omega
+  have hw := walk_sdist G x y hd
+  obtain ⟨b, hb⟩ : ∃ b, sdist G x y = k + b := ⟨sdist G x y - k, by omega⟩
+  have hb1 : 1 ≤ b := by omega
+  have hbk : sdist G x y - k = b := by omega
+  rw [hb, walk_add] at hw
+  obtain ⟨z, hz1, hz2⟩ := hw
+  refine ⟨z, ?_, hz1, ?_, ?_⟩
+  · intro hzx
+    rw [hzx] at hz2
+    have := (sdist_le G x y b hz2 hb1).2
+    omega
+  · obtain ⟨h1, h2⟩ := sdist_le G x z k hz1 hk
+    by_contra hne
+    have hw' := walk_sdist G x z h1
+    have hcat := walk_concat G x z y _ _ hw' hz2
+    have := (sdist_le G x y _ hcat (by omega)).2
+    omega
+  · rw [hbk]
+    exact hz2
+
+/-- a node set that contains `s` and is closed under following connections contains the end of every walk from `s` -/
+theorem walk_closed (G : ι → ι → ℝ) (P : ι → Prop) (s : ι) (hs : P s) (hcl : ∀ v w, P v → G v w ≠ 0 → P w) :
+    ∀ m w, walk G s w m → P w := by
+  intro m
+  induction m with
+  | zero =>
+    intro w hw
+    rw [walk_zero] at hw
+    rw [← hw]
+    exact hs
+  | succ m ih =>
+    intro w hw
+    obtain ⟨z, hz, hG⟩ := (walk_succ G s w m).mp hw
+    exact hcl z w (ih z hz) hG
+
+/-- `lemma_reach_closed(G, s, P, n)`: a node set `P` that contains `s` and is closed under following connections contains every
+node reachable from `s` (`sdist(G,s,w) >= 1`) -/
+theorem reach_closed (G : ι → ι → ℝ) (P : ι → Prop) (s : ι) (hs : P s) (hcl : ∀ v w, P v → G v w ≠ 0 → P w) :
+    ∀ w, 1 ≤ sdist G s w → P w :=
+  fun w hw => walk_closed G P s hs hcl (sdist G s w) w (walk_sdist G s w hw)
+
+end bfs
+
 -- NOT PROVED HERE: nothing was left out; every quantified fact of `spec_axioms()` and every `lemma_*` instance of
 -- engine/pyvc/core.py has a theorem above (see README.md for the table).  Three SMT axioms are not theorems but
 -- definitions / typing facts of this formalisation:
@@ -1662,5 +1717,7 @@ end mpw
 -- (fifth batch: definition `pathsum`; `pathsum_one`, `pathsum_append` for `lemma_pathsum` / `lemma_pathsum_append`, `pathsum_congr`: all proved.)
 -- (sixth batch: definitions `mdot`, `mpw`; `mpw_one`, `mpw_succ`, `mpw_succ_left` for `lemma_mpw` (via `mdot_assoc`, `mdot_id_left/right`),
 --  `mpw_nonneg`, `mpw_walk` (support of a power of a non-negative matrix = walks): all proved.)
+-- (seventh batch: `sdist_split_suffix` (split clause of `lemma_walks` with the suffix conjunct), `walk_closed`, `reach_closed` for
+--  `lemma_reach_closed`: all proved.)
 
 end VerifLemmas
